@@ -281,19 +281,26 @@ def heap_by_tag(ctx, R, prog):
             if f.nodes[j]["k"] == "MemberExpr" and f.nodes[j]["fld"] == "tag" and f.is_ref(f.nodes[j]["c"][0], hp) and rl.var_of(f, b) == tg:
                 return True
         return False
-    hit = [q for p, q, e, pol in rl.edges_with_fact(f, own_tag)]
+    hit = [(p, q) for p, q, e, pol in rl.edges_with_fact(f, own_tag)]
     ok = bool(hit)
-    for q in hit:
-        rets = [cfg.elem_at(p) for p in cfg.reach([q]) if cfg.elem_at(p) is not None and f.nodes[cfg.elem_at(p)]["k"] == "ReturnStmt"]
-        ok = ok and bool(rets) and all(rl.var_of(f, f.nodes[r].get("val", -1)) == hp for r in rets)
+    def is_heap(v):
+        return isinstance(v, tuple) and rl.var_of(f, v[1]) == hp
+    for p_, q in hit:
+        rv = rl.returned_values(f, q, src=p_)
+        ok = ok and bool(rv) and all(is_heap(v) for r, v in rv)
     ctx.check(R, ok, f.where(), "on `heap->tag == tag` every return yields `heap` itself", key=R + ":own")
-    # and that test comes before any other heap can be chosen
-    others = [r for r in f.all(kind="ReturnStmt") if "val" in f.nodes[r] and rl.var_of(f, f.nodes[r]["val"]) not in (hp, None)]
-    for r in others:
-        def not_own(e, pol):
-            return isinstance(e, int) and own_tag(e, not pol)
-        w = cfg.guarded(cfg.pt(r), not_own)
-        ctx.check(R, w is None, f.where(r), "another heap of the thread is returned only when heap->tag != tag", key=R + ":other", witness=w)
+    # and that test comes before any other heap can be chosen: a value other than `heap` (or NULL) is produced — returned
+    # directly or assigned to the result variable — only where heap->tag != tag is known
+    def not_own(e, pol):
+        return isinstance(e, int) and own_tag(e, not pol)
+    rvars = {rl.var_of(f, f.nodes[r]["val"]) for r in f.all(kind="ReturnStmt") if "val" in f.nodes[r]} - {None, hp}
+    # (a) returns of an expression that is neither `heap`, a constant, nor a variable; (b) every non-constant value other than
+    # `heap` given to a variable that is returned (loop cursor or result variable)
+    sites = [(r, f.nodes[r]["val"]) for r in f.all(kind="ReturnStmt") if "val" in f.nodes[r] and f.cv(f.nodes[r]["val"]) is None and rl.var_of(f, f.nodes[r]["val"]) is None]
+    sites += [(a, rhs) for d_ in rvars for a, rhs, op in f.var_defs(d_) if rhs is not None and f.cv(rhs) is None and rl.var_of(f, rhs) != hp]
+    for a, v in sites:
+        w = cfg.guarded(cfg.pt(a), not_own)
+        ctx.check(R, w is None, f.where(a), "another heap of the thread is chosen only when heap->tag != tag", key=R + ":other", witness=w)
     g = prog.fn("mi_segment_reclaim")
     hp = g.param_id(1)
     for c in g.calls(("_mi_page_reclaim", "mi_page_set_heap")):
